@@ -2,6 +2,7 @@ package compiler
 
 import (
 	"fmt"
+	"strings"
 
 	"github.com/grafana/cog/internal/ast"
 )
@@ -15,11 +16,25 @@ type RenameObject struct {
 
 func (pass *RenameObject) Process(schemas []*ast.Schema) ([]*ast.Schema, error) {
 	visitor := &Visitor{
-		OnObject: pass.processObject,
-		OnRef:    pass.processRef,
+		OnObject:      pass.processObject,
+		OnRef:         pass.processRef,
+		OnConstantRef: pass.processConstantRef,
+		OnDisjunction: pass.processDisjunction,
 	}
 
-	return visitor.VisitSchemas(schemas)
+	newSchemas, err := visitor.VisitSchemas(schemas)
+	if err != nil {
+		return nil, err
+	}
+
+	// the entrypoint refers to an object by its name
+	for _, schema := range newSchemas {
+		if schema.Package == pass.From.Package && schema.EntryPoint != "" && strings.EqualFold(schema.EntryPoint, pass.From.Object) {
+			schema.EntryPoint = pass.To
+		}
+	}
+
+	return newSchemas, nil
 }
 
 func (pass *RenameObject) processObject(visitor *Visitor, schema *ast.Schema, object ast.Object) (ast.Object, error) {
@@ -41,8 +56,39 @@ func (pass *RenameObject) processObject(visitor *Visitor, schema *ast.Schema, ob
 }
 
 func (pass *RenameObject) processRef(_ *Visitor, _ *ast.Schema, def ast.Type) (ast.Type, error) {
-	if def.Ref.ReferredPkg == pass.From.Package && def.Ref.ReferredType == pass.From.Object {
+	// references are matched like the object itself: case-insensitively.
+	if pass.From.MatchesRef(def.AsRef()) {
 		def.Ref.ReferredType = pass.To
+	}
+
+	return def, nil
+}
+
+func (pass *RenameObject) processConstantRef(_ *Visitor, _ *ast.Schema, def ast.Type) (ast.Type, error) {
+	if def.ConstantReference.ReferredPkg == pass.From.Package && strings.EqualFold(def.ConstantReference.ReferredType, pass.From.Object) {
+		def.ConstantReference.ReferredType = pass.To
+	}
+
+	return def, nil
+}
+
+func (pass *RenameObject) processDisjunction(visitor *Visitor, schema *ast.Schema, def ast.Type) (ast.Type, error) {
+	var err error
+
+	// discriminator mappings refer to the branches by their name
+	if schema.Package == pass.From.Package {
+		for discriminator, typeName := range def.Disjunction.DiscriminatorMapping {
+			if strings.EqualFold(typeName, pass.From.Object) {
+				def.Disjunction.DiscriminatorMapping[discriminator] = pass.To
+			}
+		}
+	}
+
+	for i, branch := range def.Disjunction.Branches {
+		def.Disjunction.Branches[i], err = visitor.VisitType(schema, branch)
+		if err != nil {
+			return ast.Type{}, err
+		}
 	}
 
 	return def, nil
